@@ -203,6 +203,20 @@ func genTkOp(r *gen.R, nicks, chans []string) tkOp {
 		for i := 0; i < k; i++ {
 			l = append(l, r.Pick(n(), "key", "12", "-5", "99999999999999999999", "+7", "x1", ""))
 		}
+		if r.P(1, 3) {
+			// stacked privilege changes (`MODE #c +ovv alice bob`): several privilege letters in one call, their arguments
+			// members and non-members of the channel in any order, names repeated, sometimes fewer arguments than letters
+			k = r.Range(1, 5)
+			l = nil
+			for i := 0; i < k; i++ {
+				if i > 0 && r.P(1, 3) {
+					l = append(l, l[i-1])
+				} else {
+					l = append(l, n())
+				}
+			}
+			return tkOp{name: "ChannelModes", args: []string{c(), r.Pick("+", "-", "") + r.Bytes(r.Range(2, 6), "qaohvqaohv+-")}, list: l}
+		}
 		return tkOp{name: "ChannelModes", args: []string{c(), r.Bytes(r.N(6), "+-imnprstzZOklqaohvbeIx")}, list: l}
 	case 15:
 		return tkOp{name: "Me"}
